@@ -864,6 +864,8 @@ class Translator:
                 v = self.fresh("d"); B.append(("bind", ("v", v), ("app", "usub", [g_raw(a), g_raw(b)]))); return (v, "usize")
             if op in ("/", "%") and re.match(r"^[1-9][0-9]*$", b):
                 return ("(Nat.%s %s %s)" % ("div" if op == "/" else "modulo", a, b), "usize")
+            if op in ("/", "%"):                              # a divisor that may be 0: checked (Panic DivZero)
+                v = self.fresh("d"); B.append(("bind", ("v", v), ("app", "udiv" if op == "/" else "umod", [g_raw(a), g_raw(b)]))); return (v, "usize")
             cmpm = {"==": "(%s =? %s)%%nat", "!=": "(negb (%s =? %s)%%nat)", "<": "(%s <? %s)%%nat", "<=": "(%s <=? %s)%%nat"}
             if op in cmpm: return (cmpm[op] % (a, b), "bool")
             if op == ">": return ("(%s <? %s)%%nat" % (b, a), "bool")
@@ -912,6 +914,14 @@ class Translator:
     def read_index(self, e, env, B):
         base, ty = self.ex(e[1], env, B)
         idx = e[2]
+        if strip(idx)[0] == "range":
+            # &v[lo..hi]: a checked sub-slice (copied: the translated subset has no aliasing through it)
+            rg = strip(idx)
+            ent = self.tb.METHODS.get(("index_range", ty))
+            if ent is None or rg[1] is None or rg[2] is None or rg[3]: self.bad("range index into a value of type %s" % (ty,))
+            lo, tl = self.ex(rg[1], env, B); hi, th = self.ex(rg[2], env, B)
+            if tl not in ("usize", "lit") or th not in ("usize", "lit"): self.bad("range index of type %s..%s" % (tl, th))
+            return self.apply_fn(ent, [base, lo, hi], B)
         if ty in LISTS:
             i, ti = self.ex(idx, env, B)
             if ti not in ("usize", "lit"): self.bad("index of type %s into a vector" % (ti,))
@@ -970,6 +980,31 @@ class Translator:
                 return (v, "vec")
             return ("(map (fun %s => %s) %s)" % (xv.g, body, src), "vec")
         if name in ("clone", "to_owned", "to_vec") and not args: return self.ex(recv, env, B)
+        if name == "unwrap" and not args and recv[0] == "mcall" and recv[2] == "join" and not recv[3]:
+            # handle.join().unwrap(): the value the worker returned; a worker that panicked makes join() an Err
+            h, th = self.ex(recv[1], env, B)
+            if th != "handle": self.bad(".join() on a value of type %s" % (th,))
+            v = self.fresh("j"); B.append(("bind", ("v", v), ("app", "join_unwrap", [g_raw(h)]))); return (v, "elem")
+        if name == "spawn" and len(args) == 1 and args[0][0] == "closure" and not args[0][1]:
+            # scope.spawn(|| BLOCK): value model of a scoped worker -- the (possibly panicking) computation of BLOCK over the
+            # values it captures; what a value model cannot exhibit (races) is excluded by the borrow rules of thread::scope
+            r, tr = self.ex(recv, env, B)
+            if tr != "scope": self.bad(".spawn(..) on a value of type %s" % (tr,))
+            body = args[0][2]
+            blk = body[1] if body[0] == "block" else ("blk", [], body)
+            if contains_return(blk): self.bad("`return` inside a spawned closure")
+            rec, outer_ctx = set(), self.ctx
+            no = lambda *a: self.bad("`return` / `continue` out of a spawned closure")
+            self.ctx = Ctx(no, no, [rec], ret_raw=no)
+            try:
+                def fin(env2, v):
+                    if v is None or v[1] != "elem": self.bad("a spawned closure must return an element")
+                    return g_ok(g_raw(v[0]))
+                term = self.block(blk, env, fin)
+            finally:
+                self.ctx = outer_ctx
+            if any(v in rec for v in env.visible()): self.bad("a spawned closure assigns a captured variable")
+            return ("(" + pp(term, 18) + ")", "handle")
         if name == "sort_by_key" and len(args) == 1:
             # v.sort_by_key(|x| x.K): the key must be literally a tuple projection of the closure parameter
             clo = args[0]
@@ -1208,7 +1243,22 @@ class Translator:
             return wrap(B, rest(env))
         self.bad("statement form `%s`" % kind)
 
+    def scope_closure(self, e):
+        """std::thread::scope(|s| { BODY }) -> (name of s, BODY) or None"""
+        if e[0] == "call" and e[1][0] == "path" and "::".join(e[1][1]) in ("std::thread::scope", "thread::scope") and len(e[2]) == 1:
+            clo = e[2][0]
+            if clo[0] == "closure" and len(clo[1]) == 1 and clo[1][0][0] == "pvar" and clo[2][0] == "block":
+                if contains_return(clo[2][1]): self.bad("`return` inside the closure of thread::scope")
+                return clo[1][0][1], clo[2][1]
+            self.bad("thread::scope(..) with an argument that is not `|s| { .. }`")
+        return None
+
     def tail_expr(self, e, env, k):
+        sc = self.scope_closure(e)
+        if sc is not None:
+            # the value of thread::scope(|s| BODY) is the value of BODY (all workers are joined when it ends)
+            env2, sv = env.declare(sc[0], self.gname(sc[0]), "scope")
+            return self.block(sc[1], env2, lambda env3, v: k(env.merge(env3), v))
         if e[0] == "if" and (e[3] is None or e[2][2] is None):       # a unit `if` in tail position
             return self.if_stmt(e, env, lambda env2: k(env2, None))
         if e[0] == "macro" and e[1] in ("panic", "unreachable"): return ("panic", "Guard")
@@ -1394,6 +1444,8 @@ class Translator:
         if it[0] == "mcall" and it[2] == "drain" and len(it[3]) == 1 and strip(it[3][0])[0] == "range" \
            and strip(it[3][0])[1] is None and strip(it[3][0])[2] is None:
             return self.for_in_stmt(pat, it[1], body, env, rest, drain=True)
+        if it[0] == "var" and env.lookup(it[1]) is not None and env.lookup(it[1]).ty in LISTS:
+            return self.for_in_stmt(pat, it, body, env, rest, drain=False)
         rev = False
         if it[0] == "mcall" and it[2] == "rev" and not it[3]:
             rev = True; it = strip(it[1])
@@ -1482,6 +1534,9 @@ class Translator:
         for v in M: self.ctx.note(v)
         B2 = []
         if drain: self.assign_place(src, "(@nil %s)" % gtype(LISTS[tl]), tl, env, B2)
+        else:                                               # `for x in v` moves v: it must not be read again
+            if not hasattr(self, "killed"): self.killed = set()
+            self.killed.add(owner)
         return wrap(B, mk_bind(names_pat(names), loop, wrap(B2, rest(env))))
 
     def while_stmt(self, s, env, rest):
